@@ -211,6 +211,8 @@ func (db *RockDB) HMset(ts int64, key []byte, args ...common.KVRecord) error {
 	var num int64
 	var value []byte
 	tsBuf := PutInt64(ts)
+	// a field repeated in one command is a new field only once (the last value wins)
+	var newFields map[string]struct{}
 	for i := 0; i < len(args); i++ {
 		if err = checkCollKFSize(verKey, args[i].Key); err != nil {
 			return err
@@ -223,7 +225,15 @@ func (db *RockDB) HMset(ts int64, key []byte, args ...common.KVRecord) error {
 		if oldV, err = db.GetBytesNoLock(ek); err != nil {
 			return err
 		} else if oldV == nil {
-			num++
+			if _, ok := newFields[string(args[i].Key)]; !ok {
+				num++
+				if len(args) > 1 {
+					if newFields == nil {
+						newFields = make(map[string]struct{}, len(args))
+					}
+					newFields[string(args[i].Key)] = struct{}{}
+				}
+			}
 		}
 		value = value[:0]
 		value = append(value, args[i].Value...)
@@ -406,6 +416,7 @@ func (db *RockDB) HDel(ts int64, key []byte, args ...[]byte) (int64, error) {
 	if len(args) == 0 {
 		return 0, nil
 	}
+	args = dedupArgs(args)
 	keyInfo, err := db.GetCollVersionKey(ts, HashType, key, false)
 	if err != nil {
 		return 0, err
